@@ -346,6 +346,9 @@ def verify(spec, tier="quick", summaries=None, only_props=None, part=None):
                 continue
             outcome, obs = r.outcome
             res.obligations.extend(obs)
+        for k2, ob in enumerate(ex.stats.get("side_obligs", [])):
+            ob.name = "%s%s/%s#s%d" % (short, vname, ob.name, k2)
+            res.obligations.append(ob)
         res.solver_s += ex.stats.get("solver_s", 0.0)
         res.solver_calls += ex.stats.get("solver_calls", 0)
     res.wall_s = time.time() - t0
